@@ -94,6 +94,16 @@ CHECKS['C09'] = dict(
     note='trusted: TLC, Mask.tla/Match.tla, harness/pyxlite.py (the C code itself is not executed: no Cython in the sandbox); word clauses inside the layout range',
     technique='TLA+ bit-layout model checked by TLC; recorded encoder words and translated-.pyx mapping sets validated against it',
     design='5/C09')
+CHECKS['C10'] = dict(
+    text='Pack.tla is a spec-level encoder of the published version-2 layout (header, 9-byte atom records, 12-bit connection table, 3-bit bond '
+         'orders straddling bytes, cis/trans block, IEEE half floats by integer arithmetic, reaction frame). TLC requires pack() - the .pyx source '
+         'run through pyx-lite - to equal Encode(projection) byte for byte, unpack(pack(m)) to project to m, the length helpers to report the '
+         'true counts (all role shapes incl. empty ones), and the published packs of pach/SI.zip to re-encode to the shipped bytes and decode '
+         'to the constitution of their CSV row; the whole element x isotope table, charges, hydrogens, boundary atom numbers and all phases of '
+         'the bit packers are enumerated.',
+    note='trusted: TLC, Pack.tla, harness/pyxlite.py (the compiled C is not executed); reference isotopes exported from the element classes (their agreement with the .pyx tables is what the byte comparison tests)',
+    technique='TLA+ encoder of the published byte layout evaluated by TLC against recorded pack/unpack calls and shipped packs',
+    design='5/C10')
 PENDING = {}
 
 
